@@ -3,6 +3,7 @@ package sym
 import (
 	"fmt"
 	"go/types"
+	"strings"
 
 	"golang.org/x/tools/go/ssa"
 )
@@ -196,6 +197,51 @@ func registerIntrinsics(e *Exec) {
 			arr = sl.Obj.Bytes
 		}
 		return e.tb.Bool(arr == e.snaps[k])
+	}
+	// vhCallAnon(name, "var1", v1, "var2", v2, ...): calls the anonymous function whose SSA
+	// name ends with name, binding its free variables by source name (each captured
+	// variable gets a fresh cell holding the given value). Lets a harness drive a closure
+	// that is not reachable from Go source.
+	in["vh:vhCallAnon"] = func(e *Exec, a []Value, call *ssa.CallCommon) Value {
+		name := e.argStr(a[0], "vhCallAnon")
+		var target *ssa.Function
+		for fn := range e.allFuncs() {
+			if fn.Parent() != nil && strings.HasSuffix(fn.String(), name) {
+				if target != nil && target != fn {
+					e.unsupported("vhCallAnon: %s is ambiguous", name)
+				}
+				target = fn
+			}
+		}
+		if target == nil {
+			e.unsupported("vhCallAnon: no anonymous function named %s", name)
+		}
+		rest := a[1].(*Slice)
+		n := int(e.concretize(rest.Len, "vhCallAnon args"))
+		off := int(e.concretize(rest.Off, "vhCallAnon args"))
+		bind := map[string]Value{}
+		for i := 0; i+1 < n; i += 2 {
+			k := rest.Obj.Cells[off+i].(*Iface)
+			v := rest.Obj.Cells[off+i+1].(*Iface)
+			bind[e.argStr(k.Val, "vhCallAnon var name")] = v.Val
+		}
+		var free []Value
+		for _, fv := range target.FreeVars {
+			v, ok := bind[fv.Name()]
+			if !ok {
+				e.unsupported("vhCallAnon: free variable %s of %s not bound", fv.Name(), name)
+			}
+			elem := fv.Type().(*types.Pointer).Elem()
+			o := e.newObj(ObjCell, elem)
+			o.Val = copyVal(v)
+			free = append(free, &Ptr{Obj: o})
+		}
+		res := e.call(target, nil, free)
+		rt := target.Signature.Results()
+		if rt.Len() != 1 {
+			return &Iface{}
+		}
+		return &Iface{Typ: rt.At(0).Type(), Val: res}
 	}
 	in["vh:vhNote"] = func(e *Exec, a []Value, _ *ssa.CallCommon) Value { return nil }
 	in["vh:vhSymbolic"] = func(e *Exec, a []Value, _ *ssa.CallCommon) Value { return e.tb.True }
